@@ -12,6 +12,8 @@ let opt_str f = if f = "~" then None else Some (str_of_field f)
 
 let addr_diverged = ref false
 
+(* luareload: the raw rule tables of the Lua host and of the second listener (mail, rcpt), kept for the chain built in handle_smtp *)
+let reload_tabs : ((str * hook_ans) list * (str * hook_ans) list * (str * hook_ans) list * (str * hook_ans) list) option ref = ref None
 let size_unseen = ref false
 let plain_refused = ref false
 let parse_mail_table pip t =
@@ -189,7 +191,25 @@ let handle_smtp (kind : string) (ins : string list) (outs : string list) : bool 
              let rh = if kind = "smtpallow"
                then List.concat (List.map (fun (_, r) -> match r with Some r -> [(r.r_addr, Allow)] | None -> []) rcpt_tab)
                else rh in
-             let o = { t_mail = parse_mail_table pip mt; t_rcpt = rcpt_tab; t_mail_hook = mh;
+             let mail_tab = parse_mail_table pip mt in
+             (* luareload: Lua host, second listener, a third one that allows everything - then the script is loaded again:
+                EventBroker.AddListener removes the old "lua" entry and appends the new one at the END. The chain is built with
+                the extracted Hooks.chain_add (Proofs/HooksChain.v), every address of the dialogue is asked. *)
+             let (mh, rh) = match kind, !reload_tabs with
+               | "luareload", Some (ml, rl, ml2, rl2) ->
+                   let nm x = str_of_raw x in
+                   let chain_of first second =
+                     chain_add (nm "lua") (table_listener first)
+                       (chain_add (nm "third") (fun _ -> Some Allow)
+                          (chain_add (nm "second") (table_listener second)
+                             (chain_add (nm "lua") (table_listener first) []))) in
+                   let cm = chain_of ml ml2 and cr = chain_of rl rl2 in
+                   (List.concat (List.map (fun (_, f) -> match f.mf_origin with
+                      | Some og -> [(og.o_addr, session_answer (chain_emit cm og.o_addr))] | None -> []) mail_tab),
+                    List.concat (List.map (fun (_, r) -> match r with
+                      | Some r -> [(r.r_addr, session_answer (chain_emit cr r.r_addr))] | None -> []) rcpt_tab))
+               | _ -> (mh, rh) in
+             let o = { t_mail = mail_tab; t_rcpt = rcpt_tab; t_mail_hook = mh;
                        t_rcpt_hook = rh; t_hdr = parse_hdr_table ht; t_msg_hook = gh } in
              let impl_replies = String.split_on_char '|' replies in
              let par = kind = "luapar" || kind = "smtppar" || kind = "smtprm" in
@@ -359,8 +379,13 @@ let handle_smtp (kind : string) (ins : string list) (outs : string list) : bool 
           (k, { ov_mailboxes = Some [mb]; ov_from = None; ov_to = None; ov_subject = None })) (split ',' msl2) in
       let first_msg = parse_msg_rules msl in
       let msg_keys = List.sort_uniq compare (List.map fst first_msg @ List.map fst second_msg) in
+      reload_tabs := (if kind = "luareload" then Some (parse_smtp_rules ml, parse_smtp_rules rl, parse_smtp_rules ml2, parse_smtp_rules rl2) else None);
+      (* luareload: on before.message_stored the reloaded Lua host is asked AFTER the second listener *)
+      let msg_chain = if kind = "luareload"
+        then [(fun k -> List.assoc_opt k second_msg); (fun k -> List.assoc_opt k first_msg)]
+        else [(fun k -> List.assoc_opt k first_msg); (fun k -> List.assoc_opt k second_msg)] in
       let msg_rules = List.concat (List.map (fun k ->
-        match broker_emit [(fun k -> List.assoc_opt k first_msg); (fun k -> List.assoc_opt k second_msg)] k with
+        match broker_emit msg_chain k with
         | Some ov -> [(k, ov)] | None -> []) msg_keys) in
       go naming maxr maxb da acc rej ds sto dis rejo (String.split_on_char '+' streams)
         (combine (parse_smtp_rules ml) (parse_smtp_rules ml2), combine (parse_smtp_rules rl) (parse_smtp_rules rl2), msg_rules)
@@ -379,5 +404,5 @@ let handle_smtp (kind : string) (ins : string list) (outs : string list) : bool 
 let () =
   Mlutil.iter_lines (fun line ->
     let (kind, ins, outs) = Mlutil.split_case line in
-    if (kind = "smtp" || kind = "smtptls" || kind = "smtppar" || kind = "smtprm" || kind = "asm" || kind = "asmtls" || kind = "asmr" || kind = "lua" || kind = "luapar") && handle_smtp kind ins outs then ()
+    if (kind = "smtp" || kind = "smtptls" || kind = "smtppar" || kind = "smtprm" || kind = "asm" || kind = "asmtls" || kind = "asmr" || kind = "lua" || kind = "luareload" || kind = "luapar") && handle_smtp kind ins outs then ()
     else Mlutil.print_model ["UNKNOWN-KIND"] "ok")
